@@ -34,6 +34,25 @@ CLAIMED = {
              'Verbatim/math regions set aside. Two known findings (image src, code language written raw) are excluded by the hypothesis kf_free and have a refutation lemma.',
         technique='Coq proof (induction over token trees; reflective side conditions on regenerated escape data) + extracted-model correspondence',
         design='5/C17'),
+    'C18': dict(
+        text='Theorems: (a) over the method-resolution tables regenerated from the live classes, every non-extension method of each contrib renderer '
+             'resolves to the class that supplies it for HtmlRenderer (kernel-checked finite sweep), constructors forward **kwargs; (b) for ALL token '
+             'trees and option sets, rendering by method resolution over the HTML model equals the HTML model wherever the renderer\'s own overrides '
+             'are not reached (Toc: every tree; MathJax: + script line); (c) a token type that finds nothing does not change inline tokenization. '
+             'Extracted model vs the four real renderers (real Pygments highlight supplied) on all streams; oracle = contrib output vs HtmlRenderer output.',
+        note='Trusted: Coq kernel, extraction, gen_dispatch.py (inspect/ast), hand-written model of the four overrides, HTML model of C08. '
+             'That a pattern cannot match without its trigger character is checked on the implementation only.',
+        technique='Coq proof (induction over token trees + reflective sweep of regenerated MRO tables) + extracted-model correspondence',
+        design='5/C18'),
+    'C19': dict(
+        text='Theorems over ALL token trees and all configurations (depth, omit_title, arbitrary filter predicates): the headings TocRenderer collects '
+             'are exactly the qualifying headings in document order (rendering order = document order proved), each with its level and, for plain-word '
+             'titles, exactly its text (strip_tags model of the tag-stripping regex). Model tied by X-toc on generated outlines and spec-derived texts. '
+             'PARTIAL: nesting of the rebuilt list is decided by the oracle on the implementation only.',
+        note='Trusted: Coq kernel, extraction, hand-written model of render_heading/parse_rendered_heading (strip_tags differential-tested against re.sub), '
+             'HTML model of C08, outline generator. Known findings: kf_toc_empty, kf_setext_in_quote; one fix: commit (indent base).',
+        technique='Coq proof (induction over token trees) + extracted-model correspondence; nesting clause by generator-oracle only',
+        design='5/C19'),
 }
 
 NOT_YET = {}
